@@ -42,6 +42,8 @@ let run (cases : case list) =
           | ["arrive"; k; n; seed] -> evline (dstepl (DArrive { d_src = z_of_string k; d_data = pat (int_of_string seed) (int_of_string n) }))
           | ["aread"; n; cb] -> evline (dstepl (DAsyncRead (z_of_string n, z_of_string cb)))
           | ["setbuf"; n] -> evline (dstepl (DSetBuf (z_of_string n)))
+          | ["chain"; n; bl] ->
+            evline (List.concat (List.init (int_of_string n) (fun k -> dstepl (DAsyncRead (z_of_string bl, z_of_int (100 + k))))))
           | ["poll"] -> evline (dstepl DPoll)
           | ["write"; k; n; seed] ->
             let data = pat (int_of_string seed) (int_of_string n) in
@@ -69,7 +71,7 @@ let run (cases : case list) =
         else begin
           (match toks with
            | ["arrive"; k; n; seed] -> o_q := !o_q @ [(k, pat (int_of_string seed) (int_of_string n))]
-           | ["aread"; n; _] | ["setbuf"; n] -> o_buf := int_of_string n
+           | ["aread"; n; _] | ["setbuf"; n] | ["chain"; _; n] -> o_buf := int_of_string n
            | _ -> ());
           List.iter (fun tok ->
             if !oracle_live && String.length tok > 1 && tok.[0] = 'R' then
